@@ -23,6 +23,7 @@ import rs2lean_analyze as ra
 import rs2lean_vm as rv
 import rs2lean_tostr as rt
 import rs2lean_expand as rx
+import rs2lean_ints as ints
 from rs2lean_analyze import Unsupported, bad, matching, top_level_positions, parse_struct, parse_enum, int_of, find_seq
 from rs2lean_vm import tokenize, lean_id, LITERALS
 from rs2lean_tostr import lean_char, lean_str
@@ -154,12 +155,20 @@ class Parser(rx.Parser):
                 if self.at('mut'):
                     self.next()
                     mut = True
-                if self.peek().kind != 'id' or self.peek(1).text != '=':
-                    bad('`let` with a pattern that is not a plain identifier, or with a type annotation', t.line)
+                if self.peek().kind != 'id' or self.peek(1).text not in ('=', ':'):
+                    bad('`let` with a pattern that is not a plain identifier', t.line)
                 name = self.ident()
-                self.next()
+                ty = None
+                if self.at(':'):
+                    self.next()
+                    ty = self.type_(['=', ';'])
+                    if not (ints.is_int(ty) or ty == 'bool'):
+                        bad('`let` with a type annotation other than an integer type / bool', t.line)
+                self.expect('=')
                 e = self.expr()
                 self.expect(';')
+                if ty is not None:
+                    e = ('typed', e, ty, t.line)
                 stmts.append(('let', name, mut, e, t.line))
             elif t.kind == 'id' and t.text == 'for':
                 self.next()
@@ -180,13 +189,11 @@ class Parser(rx.Parser):
             else:
                 e = self.expr()
                 nt = self.peek()
-                if nt.kind == 'op' and nt.text in ('=', '+='):
-                    self.next()
+                op = self.assign_op(('=', '+=', '-=', '*=', '|=', '&=', '^=', '<<=', '>>='))
+                if op:
                     r = self.expr()
                     self.expect(';')
-                    stmts.append(('assign', e, nt.text, r, t.line))
-                elif nt.kind == 'op' and nt.text in ('-=', '&=', '|=', '*=', '/=', '%=', '^='):
-                    bad('compound assignment `%s`' % nt.text, nt.line)
+                    stmts.append(('assign', e, op, r, t.line))
                 elif self.at(';'):
                     self.next()
                     stmts.append(('expr', e, t.line))
@@ -205,8 +212,12 @@ LEAN_T = {'usize': 'Nat', 'u32': 'Nat', 'int': 'Nat', 'bool': 'Bool', 'char': 'C
           'RaRegex': 'List Char', 'Names': 'Names', 'Name': 'Name', 'Caps': 'RCaptures', 'CapsImpl': 'RCapsImpl', 'Locs': 'RaLocs',
           'Saves': 'List Nat', 'Match': '(Nat × Nat)', 'Span': '(Nat × Nat)', 'Info': 'GenAnalyze.GInfo', 'Expr': 'Expr', 'Tree': 'Tree',
           'VecExpr': 'List Expr', 'VecInfo': 'List GenAnalyze.GInfo', 'SubCaps': 'RSubCaptureMatches', 'OptNames': 'List (Option Name)',
-          'Input': 'Option Ctx', 'unit': 'Unit', 'Backrefs': 'List Nat', 'NoExpand': 'List Char'}
-NUM = ('usize', 'u32', 'int')
+          'Input': 'Option Ctx', 'unit': 'Unit', 'u64': 'Nat', 'u16': 'Nat', 'u8': 'Nat', 'Backrefs': 'List Nat', 'NoExpand': 'List Char'}
+NUM = ('usize', 'u32', 'u64', 'u16', 'u8', 'int')
+
+
+def width_of(t):
+    return 'usize' if t == 'int' else t
 
 
 def lt(t):
@@ -284,6 +295,16 @@ VARIANT_PATS = {
 RESERVED = {'sem', 'fuel', 'parse', 'order', 'e_', 's_', 'rest_', 'expand'}
 
 
+def vid(name):
+    """the Lean identifier of a Rust variable: a name that the generated code uses for itself (RESERVED, `t1`, `t2`, …) is
+    renamed apart (`n` -> `n_rs`), so that a local may be called anything"""
+    return lean_id(name + '_rs') if (name in RESERVED or re.match(r't[0-9]+$', name)) else lean_id(name)
+
+
+def clash_rs(name):
+    return name.endswith('_rs') and (name[:-3] in RESERVED or re.match(r't[0-9]+$', name[:-3]) is not None)
+
+
 def is_path(e, *names):
     return e[0] == 'path' and e[1] == list(names)
 
@@ -332,10 +353,11 @@ class Translator:
             bad('an operation that can panic / fail in `%s`, which is translated as a total function' % c.fn, line)
 
     def bind(self, c, name, t, line, mut=False, shadow=False):
-        if (name in c.types and not shadow) or name in RESERVED or name in self.names or re.match(r't[0-9]+$', name):
-            bad('`%s` shadows a name that is in scope (shadowing is not in the subset)' % name, line)
+        if (name in c.types and not shadow) or clash_rs(name) or name in self.names:
+            bad('`%s` shadows a name of an enclosing scope / a parameter (only an earlier `let` of the same block may be shadowed)' % name, line)
         c2 = c.copy()
         c2.types[name] = 'usize' if t == 'int' else t
+        c2.mutable.discard(name)
         if mut:
             c2.mutable.add(name)
         return c2
@@ -348,6 +370,30 @@ class Translator:
         k, line = e[0], e[-1]
         if k == 'int':
             return [], str(e[1]), 'int'
+        if k == 'tint':
+            if not ints.is_int(e[2]) or not ints.fits(e[1], e[2]):
+                bad('integer literal of type %s' % e[2], line)
+            return [], str(e[1]), e[2]
+        if k == 'typed':                     # `let x: T = e`
+            p, s, t = self.ex(e[1], c, e[2])
+            if ints.is_int(e[2]):
+                if not (t == e[2] or (t == 'int' and s.isdigit() and ints.fits(int(s), e[2]))):
+                    bad('`let _: %s` of a value of type %s' % (e[2], t), line)
+                return p, s, e[2]
+            if t != e[2]:
+                bad('`let _: %s` of a value of type %s' % (e[2], t), line)
+            return p, s, t
+        if k == 'cast':
+            p, s, t = self.ex(e[1], c)
+            if e[2] in ints.SIGNED:
+                bad('cast to the signed / 128-bit type %s (not in the subset)' % e[2], line)
+            if t not in NUM or not ints.is_int(e[2]):
+                bad('cast from %s to %s' % (t, e[2]), line)
+            if t == 'int':
+                if not (s.isdigit() and ints.fits(int(s), e[2])):
+                    bad('cast of a literal expression', line)
+                return p, s, e[2]
+            return p, ints.cast(s, t, e[2]), e[2]
         if k == 'char':
             return [], lean_char(e[1]), 'char'
         if k == 'bool':
@@ -364,7 +410,7 @@ class Translator:
             if len(e[1]) != 1 or e[1][0] not in c.types:
                 bad('`%s` as a value' % '::'.join(e[1]), line)
             n = e[1][0]
-            return [], ('self' if n == 'self' else lean_id(n)), c.types[n]
+            return [], ('self' if n == 'self' else vid(n)), c.types[n]
         if k == 'tfield':
             p, s, t = self.ex(e[1], c)
             if e[2] == 0 and t == 'Builder':
@@ -402,9 +448,23 @@ class Translator:
             if op in ('<', '<=', '>', '>=') and tl in NUM and tr in NUM:
                 return pa + pb, '(decide (%s %s %s))' % (l, {'<': '<', '<=': '≤', '>': '>', '>=': '≥'}[op], r), 'bool'
             if op in ('+', '*') and tl in NUM and tr in NUM:
-                return pa + pb, '(%s %s %s)' % (l, op, r), 'usize'
+                rt_ = tr if tl == 'int' else tl
+                if rt_ in ('usize', 'u32', 'int'):       # (the flags are `u32`: as before, no overflow)
+                    return pa + pb, '(%s %s %s)' % (l, op, r), 'usize' if rt_ == 'int' else ('usize' if rt_ == 'u32' else rt_)
+                return pa + pb, ints.arith(op, l, r, rt_), rt_
             if op == '/' and tl in NUM and b[0] == 'int' and b[1] != 0:
                 return pa + pb, '(%s / %s)' % (l, r), 'usize'
+            if op == '-' and tl in NUM and tr in NUM:
+                t = self.fresh()                   # underflow = panic, as in the other translators
+                return pa + pb + [('opt', 'checkedSub %s %s' % (l, r), self.site(c, 'sub'), t)], t, (tr if tl == 'int' else tl)
+            if op in ('|', '&', '^') and tl in NUM and tr in NUM:
+                return pa + pb, ints.bitop(op, l, r), (tr if tl == 'int' else tl)
+            if op in ('|', '&') and tl == tr == 'bool':
+                return pa + pb, '(%s %s %s)' % (l, '||' if op == '|' else '&&', r), 'bool'
+            if op in ('<<', '>>') and tl in NUM and tr in NUM:
+                if tl == 'int':
+                    bad('`%s` on an integer literal whose type is not evident here' % op, line)
+                return pa + pb, ints.shift(op, l, r, tl), tl
             bad('`%s` between %s and %s' % (op, tl, tr), line)
         if k == 'index':
             if e[2][0] == 'range' and e[1][0] == 'field' and e[1][2] == 'text' and self.ex(e[1][1], c)[2] == 'Match':
@@ -540,6 +600,11 @@ class Translator:
             if expect not in ('OptNames',):
                 bad('`Vec::new()` whose element type is not known here', line)
             return [], '([] : %s)' % lt(expect), expect
+        if path == ['Vec', 'with_capacity'] and len(args) == 1:
+            p, n, tn = self.ex(args[0], c)          # the capacity is evaluated (it can panic) and has no other effect
+            if expect not in ('OptNames',) or tn not in NUM:
+                bad('`Vec::with_capacity(..)` whose element type is not known here', line)
+            return p, '([] : %s)' % lt(expect), expect
         if path == ['SyntaxConfig', 'default'] and not args:
             return [], 'syntaxcDefault', 'Syntaxc'
         if path == ['Expr', 'Concat'] and len(args) == 1:
@@ -579,7 +644,7 @@ class Translator:
             if len(params) != 1 or params[0][0] != 'pbind':
                 bad('closure that does not take one plain parameter', line)
             c2 = self.bind(c, params[0][1], argty, line)
-            x = lean_id(params[0][1])
+            x = vid(params[0][1])
         if body[0] == 'blockexpr':
             if body[1] or body[2] is None:
                 bad('closure with statements here', line)
@@ -616,8 +681,18 @@ class Translator:
             return pre, '(syntaxcSet %s %s)' % (s, a0), 'Syntaxc'
         if t == 'Text' and m == 'len' and not args:
             return pre, '%s.len' % s, 'usize'
-        if t == 'Saves' and m == 'len' and not args:
+        if t in ('Saves', 'OptNames', 'VecExpr', 'VecInfo', 'str') and m == 'len' and not args:
             return pre, '%s.length' % s, 'usize'
+        if t in ('Saves', 'OptNames', 'VecExpr', 'VecInfo', 'str', 'Names') and m == 'is_empty' and not args:
+            return pre, '(List.isEmpty %s)' % s, 'bool'
+        if t in NUM and m in ints.METHODS and len(at) == 1 and at[0] in NUM:
+            if t == 'int':
+                bad('`.%s(..)` on an integer literal whose type is not evident here' % m, line)
+            if ints.METHODS[m][2] == 'opt':
+                return pre, ints.method(m, s, a0, t), ('opt', t)
+            return pre, ints.method(m, s, a0, t), t
+        if isinstance(t, tuple) and t[0] == 'opt' and t[1] in NUM and m == 'unwrap_or' and len(at) == 1 and at[0] in NUM:
+            return pre, '(Option.getD %s %s)' % (s, a0), t[1]
         if t == 'str' and m == 'contains' and at == ['char']:
             return pre, '(List.contains %s %s)' % (s, a0), 'bool'
         if t == 'RaRegex' and m == 'is_match' and at == ['Text']:
@@ -641,6 +716,8 @@ class Translator:
         if isinstance(t, tuple) and t[0] == 'opt':
             if m == 'is_some' and not args:
                 return pre, '(Option.isSome %s)' % s, 'bool'
+            if m == 'is_none' and not args:
+                return pre, '(Option.isNone %s)' % s, 'bool'
             if m == 'map' and at == ['closure']:
                 x, b, tb = self.closure_pure(args[0], c, t[1])
                 return pre, '(Option.map (fun %s => %s) %s)' % (x, b, s), ('opt', tb)
@@ -661,7 +738,7 @@ class Translator:
         if k == 'pwild':
             return '_', []
         if k == 'pbind':
-            return lean_id(p[1]), [(p[1], ty)]
+            return vid(p[1]), [(p[1], ty)]
         if k == 'pnone' and isinstance(ty, tuple) and ty[0] == 'opt':
             return 'none', []
         if k == 'psome' and isinstance(ty, tuple) and ty[0] == 'opt':
@@ -684,16 +761,16 @@ class Translator:
                 if q is None or q[0] == 'pwild' or fty is None:
                     args[f] = '_'
                 elif q[0] == 'pbind':
-                    args[f] = lean_id(q[1])
+                    args[f] = vid(q[1])
                     binds.append((q[1], fty))
                 else:
                     bad('sub-pattern of `%s::%s`' % (p[1], p[2]), line)
             return tmpl.format(**args), binds
         if k == 'pvariant' and p[1] == 'Expr' and ty == 'Expr' and p[3] == 'tuple' and len(p[4]) == 1 and p[4][0][0] == 'pbind':
             if p[2] == 'Concat':
-                return '.concat %s' % lean_id(p[4][0][1]), [(p[4][0][1], 'VecExpr')]
+                return '.concat %s' % vid(p[4][0][1]), [(p[4][0][1], 'VecExpr')]
             if p[2] == 'Group':
-                return '.group _ %s' % lean_id(p[4][0][1]), [(p[4][0][1], 'Expr')]
+                return '.group _ %s' % vid(p[4][0][1]), [(p[4][0][1], 'Expr')]
         bad('pattern of form %s on a value of type %s' % (k, ty), line)
 
     # ---- statements, continuation-passing; k(c, ind, tail)
@@ -716,6 +793,7 @@ class Translator:
     def stmts(self, stmts, tail, c, ind, k):
         if not stmts:
             return k(c, ind, tail)
+        ints.mark_shadow_lets(stmts, self)
         s, rest = stmts[0], stmts[1:]
         kind, line = s[0], s[-1]
         cont = lambda c2, i2: self.stmts(rest, tail, c2, i2, k)
@@ -738,18 +816,18 @@ class Translator:
                         return [i2 + '.panic "%s"' % self.site(c, 'unreachable')]
                     p, v, t = self.ex(tl, c_inner)
                     self.need_lres(c, p, line)
-                    c3 = self.bind(c, name, t, line, mut)
+                    c3 = self.bind(c, name, t, line, mut, shadow=ints.shadow_ok(self, s) and name != 'self')
                     out, i3 = self.emit_pre(p, i2)
-                    return out + [i3 + 'let %s : %s := %s' % (lean_id(name), lt(c3.types[name]), v)] + cont(c3, i3)
+                    return out + [i3 + 'let %s : %s := %s' % (vid(name), lt(c3.types[name]), v)] + cont(c3, i3)
                 return self.cps(e, c, ind, kv)
             expect = LOCAL_TYPES.get((c.fn, name))
             p, v, t = self.ex(e, c, expect)
             if isinstance(t, tuple) and t[0] == 'lres':
                 bad('a fallible call without `?`', line)
             self.need_lres(c, p, line)
-            c2 = self.bind(c, name, t, line, mut)
+            c2 = self.bind(c, name, t, line, mut, shadow=ints.shadow_ok(self, s) and name != 'self')
             out, i2 = self.emit_pre(p, ind)
-            return out + [i2 + 'let %s : %s := %s' % (lean_id(name), lt(c2.types[name]), v)] + cont(c2, i2)
+            return out + [i2 + 'let %s : %s := %s' % (vid(name), lt(c2.types[name]), v)] + cont(c2, i2)
         if kind == 'assign':
             _, target, op, e, _ = s
             pv, v, tv = self.ex(e, c)
@@ -768,7 +846,29 @@ class Translator:
             if op == '+=':
                 if tc not in NUM:
                     bad('`+=` on a value of type %s' % (tc,), line)
-                v = '(%s + %s)' % (cur, v)
+                v = '(%s + %s)' % (cur, v) if tc in ('usize', 'u32') else ints.arith('+', cur, v, tc)
+            elif op == '-=':
+                if tc not in NUM:
+                    bad('`-=` on a value of type %s' % (tc,), line)
+                t_ = self.fresh()
+                pv, v = pv + [('opt', 'checkedSub %s %s' % (cur, v), self.site(c, 'sub'), t_)], t_
+            elif op == '*=':
+                if tc not in NUM:
+                    bad('`*=` on a value of type %s' % (tc,), line)
+                v = ints.arith('*', cur, v, width_of(tc))
+            elif op in ('|=', '&=', '^='):
+                if tc in NUM:
+                    v = ints.bitop(op[0], cur, v)
+                elif tc == 'bool' and op != '^=':
+                    v = '(%s %s %s)' % (cur, '||' if op == '|=' else '&&', v)
+                else:
+                    bad('`%s` on a value of type %s' % (op, tc), line)
+            elif op in ('<<=', '>>='):
+                if tc not in NUM:
+                    bad('`%s` on a value of type %s' % (op, tc), line)
+                v = ints.shift(op[:2], cur, v, width_of(tc))
+            elif op != '=':
+                bad('compound assignment `%s`' % op, line)
             root, newval = self.update(target, v, c, line)
             if root != 'self' and root not in c.mutable:
                 bad('assignment to `%s`, which is not `let mut`' % root, line)
@@ -776,7 +876,7 @@ class Translator:
                 bad('`self` is changed in a method that does not take `&mut self`', line)
             self.need_lres(c, pv, line)
             out, i2 = self.emit_pre(pv, ind)
-            rn = 'self' if root == 'self' else lean_id(root)
+            rn = 'self' if root == 'self' else vid(root)
             return out + [i2 + 'let %s : %s := %s' % (rn, lt(c.types[root]), newval)] + cont(c, i2)
         if kind == 'expr':
             e = s[1]
@@ -800,7 +900,7 @@ class Translator:
         if recv[0] != 'path' or len(recv[1]) != 1 or recv[1][0] not in c.types:
             return None
         v, t = recv[1][0], c.types[recv[1][0]]
-        lv = lean_id(v)
+        lv = vid(v)
         if m == 'resize' and t == 'OptNames' and len(args) == 2 and is_path(args[1], 'None') and v in c.mutable:
             p, n, tn = self.ex(args[0], c)
             if tn not in NUM:
@@ -819,7 +919,7 @@ class Translator:
             if c.types.get(b) != 'str' or b not in c.mutable or tp not in NUM:
                 bad('`to_str(&mut buf, precedence)`', line)
             self.need_lres(c, [1], line)
-            out, i2 = self.emit_pre(p + [('opt', 'GenToStr.genToStr %s %s %s' % (lv, lean_id(b), prec), self.site(c, 'to_str'), lean_id(b))], ind)
+            out, i2 = self.emit_pre(p + [('opt', 'GenToStr.genToStr %s %s %s' % (lv, vid(b), prec), self.site(c, 'to_str'), vid(b))], ind)
             return out + cont(c, i2)
         if m == 'captures' and t == 'RaRegex' and len(args) == 2 and args[1][0] == 'refmut' and args[1][1][0] == 'path':
             loc = args[1][1][1][0]
@@ -827,7 +927,7 @@ class Translator:
             if c.types.get(loc) != 'Locs' or loc not in c.mutable or ti != 'Input':
                 bad('`inner.captures(input, &mut locations)`', line)
             out, i2 = self.emit_pre(p, ind)
-            return out + [i2 + 'let %s : RaLocs := raCaptures sem %s %s' % (lean_id(loc), lv, inp)] + cont(c, i2)
+            return out + [i2 + 'let %s : RaLocs := raCaptures sem %s %s' % (vid(loc), lv, inp)] + cont(c, i2)
         if m == 'push_str' and t == 'str' and len(args) == 1 and v in c.mutable:
             p, x, tx = self.ex(args[0], c)
             if tx != 'str':
@@ -836,7 +936,7 @@ class Translator:
             return out + [i2 + 'let %s : List Char := (%s ++ %s)' % (lv, lv, x)] + cont(c, i2)
         if m == 'expand' and t == 'Caps' and len(args) == 2 and args[1][0] == 'path' and c.types.get(args[1][1][0]) == 'str':
             p, x, tx = self.ex(args[0], c)
-            d = lean_id(args[1][1][0])
+            d = vid(args[1][1][0])
             if tx != 'str' or args[1][1][0] not in c.mutable:
                 bad('`caps.expand(template, dst)`', line)
             out, i2 = self.emit_pre(p, ind)
@@ -912,7 +1012,7 @@ class Translator:
                     bad('closure that does not take one plain parameter', cl)
                 c2 = self.bind(c, params[0][1], t[1], cl, mut=True)
                 out, i2 = self.emit_pre(p, ind)
-                out += [i2 + 'match %s with' % s, i2 + '| none => %s' % self.wrap_ok(c, 'none'), i2 + '| some %s =>' % lean_id(params[0][1])]
+                out += [i2 + 'match %s with' % s, i2 + '| none => %s' % self.wrap_ok(c, 'none'), i2 + '| some %s =>' % vid(params[0][1])]
                 blk = (body[1], body[2]) if body[0] == 'blockexpr' else ([], body)
                 if e[2] == 'map':
                     inner_want = want[1] if isinstance(want, tuple) and want[0] == 'opt' else None
@@ -957,7 +1057,7 @@ class Translator:
         for n, ty in binds:
             cl = self.bind(cl, n, ty, line)
         cl.loop = True
-        a = lean_id(acc)
+        a = vid(acc)
         lines = ['def %s : Names → %s → LRes (%s)' % (name, lt(c.types[acc]), lt(c.types[acc])),
                  '  | [], %s => .ok %s' % (a, a), '  | %s :: rest_, %s =>' % (lp, a)]
         saved = (cl.lres, cl.mutself, cl.ret)
@@ -1091,7 +1191,25 @@ class Driver(Translator):
             hi = matching(toks, lo)
         want = sig.split()
         i = find_seq(toks, want, lo, hi)
+        self.mut_params = set()
         if i < 0:
+            # the same signature with `mut` in front of by-value parameters (`fn f(mut x: T)`): the parameter is a `let mut` local
+            k0 = find_seq(toks, want[:want.index('(') + 1], lo, hi) if '(' in want else -1
+            while k0 >= 0:
+                j, k, muts = 0, k0, set()
+                while j < len(want) and k < len(toks):
+                    if toks[k].text == 'mut' and toks[k - 1].text in ('(', ',') and toks[k + 1].kind == 'id' and toks[k + 2].text == ':' \
+                            and want[j] != 'mut':
+                        muts.add(toks[k + 1].text)
+                        k += 1
+                        continue
+                    if toks[k].text != want[j]:
+                        break
+                    j, k = j + 1, k + 1
+                if j == len(want) and muts:
+                    self.mut_params = muts
+                    return Parser(toks, k - 1).block(), toks[k0].line
+                k0 = find_seq(toks, want[:want.index('(') + 1], k0 + 1, hi)
             bad('cannot find `%s`%s' % (sig.replace(' ', ''), ' in `%s`' % impl.replace(' ', '') if impl else ''))
         if find_seq(toks, want, i + 1, hi) >= 0 and impl is not None:
             bad('`%s` occurs twice' % sig.replace(' ', ''))
@@ -1111,8 +1229,10 @@ class Driver(Translator):
             lparams.append('(self : %s)' % lt(f['slf']))
         for n, t in f['params']:
             c.types[n] = t
+            if n in self.mut_params:
+                c.mutable.add(n)
             if n not in f.get('drop', []):
-                lparams.append('(%s : %s)' % (lean_id(n), lt(t)))
+                lparams.append('(%s : %s)' % (vid(n), lt(t)))
         if f.get('text'):
             pass                      # `self.text` / `text` of a `Match` / `Captures`: the haystack, not represented
         self.tmpn = 0
@@ -1190,7 +1310,7 @@ class Driver(Translator):
         lparams = list(f['extra']) + ['(self : List Char)']
         for n, t in f['params']:
             c.types[n] = t
-            lparams.append('(%s : %s)' % (lean_id(n), lt(t)))
+            lparams.append('(%s : %s)' % (vid(n), lt(t)))
         self.tmpn = 0
         body = self.block(blk, c, '  ', lambda c2, i2, tl: self.dst_tail(tl, c2, i2))
         self.defs.append(('`%s::replace_append` (replacer.rs line %d): `dst` is handed in and returned' % (
@@ -1267,8 +1387,8 @@ def main(argv):
     except Unsupported as e:
         where = '%s:%s: ' % (src, e.line) if e.line else '%s: ' % src
         failure = 'rs2lean_lib.py: NOT TRANSLATED - %s%s' % (where, e.msg)
-    except (OSError, IndexError, StopIteration, KeyError, ValueError) as e:
-        failure = 'rs2lean_lib.py: NOT TRANSLATED - %s: %r' % (src, e)
+    except Exception as e:                  # whatever goes wrong inside the translator is a refusal: never a stale file
+        failure = 'rs2lean_lib.py: NOT TRANSLATED - %s: %s: %r' % (src, type(e).__name__, e)
     if failure is not None:
         print(failure)
         if not stub_on_failure or out == '-':
